@@ -163,10 +163,10 @@ int main(int argc, char **argv) {
         // ---- shapes + pins (descriptors first; the tag depends on them)
         int pinId = 0;
         bool borderPin0 = false;
-        for (int s = 0; s < nshapes; ++s) {
-            ShapeD sd; sd.id = s; sd.cx = cells[ci].first; sd.cy = cells[ci].second; ++ci; sd.live = true; sd.ref = nullptr;
-            sc.rectIn(r, sd.cx, sd.cy, sd.x0, sd.y0, sd.x1, sd.y1);
-            sc.shapes.push_back(sd);
+        // pin descriptors of shape number s (appended to sc.pins); fixBorder: lift border pins off the
+        // border line when the buffer is zero (class border0 is a separate generator mode)
+        auto genPinDescs = [&](int s, bool fixBorder) {
+            ShapeD &sd = sc.shapes[s];
             int np = (int) r.range(1, 5);
             for (int p = 0; p < np; ++p) {
                 PinD pd; pd.id = pinId++; pd.shape = s; pd.cls = (unsigned) r.range(1, 2 + (np > 3)); pd.live = true; pd.pin = nullptr;
@@ -186,6 +186,7 @@ int main(int argc, char **argv) {
                 }
                 static const double ins[] = {0, 0, 1, 2.5, 5};
                 pd.inside = ins[r.range(0, 4)];
+                if (fixBorder && pd.inside == 0) pd.inside = 2.5;
                 pd.dirs = r.coin(2, 5) ? 0u : (unsigned) r.range(1, 15);
                 static const double costs[] = {0, 0, 0, 10, 50.5};
                 pd.cost = costs[r.range(0, 4)];
@@ -196,6 +197,12 @@ int main(int argc, char **argv) {
                 if (dup) { --pinId; continue; }
                 sc.pins.push_back(pd);
             }
+        };
+        for (int s = 0; s < nshapes; ++s) {
+            ShapeD sd; sd.id = s; sd.cx = cells[ci].first; sd.cy = cells[ci].second; ++ci; sd.live = true; sd.ref = nullptr;
+            sc.rectIn(r, sd.cx, sd.cy, sd.x0, sd.y0, sd.x1, sd.y1);
+            sc.shapes.push_back(sd);
+            genPinDescs(s, false);
         }
         // a pin lying on the border line of its shape while the routing buffer is zero: the
         // border is itself a visibility line (own generator class, see report)
@@ -232,7 +239,7 @@ int main(int argc, char **argv) {
             Rectangle s1(Point(-80, -80), Point(-64, -64)), s2(Point(GRID * CELL + 64, GRID * CELL + 64), Point(GRID * CELL + 80, GRID * CELL + 80));
             new ShapeRef(sc.router, s1, 5); new ShapeRef(sc.router, s2, 6);
         }
-        for (auto &pd : sc.pins) {
+        auto createPin = [&](PinD &pd) {
             int exclSet = (int) r.range(0, 3);       // 0,1: leave default; 2: setExclusive(false); 3: setExclusive(true)
             printf("pin %d %d %u %s %s %d %s %u %s %d\n", pd.id, pd.shape, pd.cls, hx(pd.xo).c_str(), hx(pd.yo).c_str(), (int) pd.prop,
                    hx(pd.inside).c_str(), pd.dirs, hx(pd.cost).c_str(), exclSet <= 1 ? -1 : exclSet - 2);
@@ -240,7 +247,8 @@ int main(int argc, char **argv) {
             pd.pin = new ShapeConnectionPin(sc.shapes[pd.shape].ref, pd.cls, pd.xo, pd.yo, pd.prop, pd.inside, (ConnDirFlags) pd.dirs);
             if (exclSet >= 2) pd.pin->setExclusive(exclSet == 3);
             if (pd.cost > 0) pd.pin->setConnectionCost(pd.cost);
-        }
+        };
+        for (auto &pd : sc.pins) createPin(pd);
         for (int j = 0; j < njunc; ++j) {
             JuncD jd; jd.id = j; jd.cx = cells[ci].first; jd.cy = cells[ci].second; ++ci;
             jd.x = jd.cx * CELL + q4(r, 64, 192, sc.frac); jd.y = jd.cy * CELL + q4(r, 64, 192, sc.frac);
@@ -250,6 +258,36 @@ int main(int argc, char **argv) {
             if (jd.fixed) jd.ref->setPositionFixed(true);
             sc.juncs.push_back(jd);
         }
+        // ---- helpers for moving objects inside their own cell
+        auto moveInCell = [&](ShapeD &s) {
+            double w = s.x1 - s.x0, h = s.y1 - s.y0;
+            double nx0 = s.cx * CELL + MARGIN + q4(r, 0, (long) (CELL - 2 * MARGIN - w) - 1, sc.frac);
+            double ny0 = s.cy * CELL + MARGIN + q4(r, 0, (long) (CELL - 2 * MARGIN - h) - 1, sc.frac);
+            double dx = nx0 - s.x0, dy = ny0 - s.y0;
+            printf("op move %d %s %s\n", s.id, hx(dx).c_str(), hx(dy).c_str()); fflush(stdout);
+            sc.router->moveShape(s.ref, dx, dy);
+            s.x0 += dx; s.x1 += dx; s.y0 += dy; s.y1 += dy;
+        };
+        auto resizeInCell = [&](ShapeD &s) {
+            sc.rectIn(r, s.cx, s.cy, s.x0, s.y0, s.x1, s.y1);
+            printf("op resize %d %s %s %s %s\n", s.id, hx(s.x0).c_str(), hx(s.y0).c_str(), hx(s.x1).c_str(), hx(s.y1).c_str()); fflush(stdout);
+            sc.router->moveShape(s.ref, Rectangle(Point(s.x0, s.y0), Point(s.x1, s.y1)));
+        };
+        auto moveJunc = [&](JuncD &j) {
+            double nx = j.cx * CELL + q4(r, 64, 192, sc.frac), ny = j.cy * CELL + q4(r, 64, 192, sc.frac);
+            printf("op jmove %d %s %s\n", j.id, hx(nx - j.x).c_str(), hx(ny - j.y).c_str()); fflush(stdout);
+            sc.router->moveJunction(j.ref, nx - j.x, ny - j.y);
+            j.x = nx; j.y = ny;
+        };
+        // ---- moves / resizes of freshly created objects, i.e. while their Add action is still queued
+        // (Router::moveShape / moveJunction then merge into the Add through setNewPoly / setPosition);
+        // the pins were added before, so they have to follow the final geometry
+        for (auto &sd : sc.shapes) if (r.coin(1, 3)) { if (r.coin()) moveInCell(sd); else resizeInCell(sd); }
+        for (auto &jd : sc.juncs) if (r.coin(1, 3)) moveJunc(jd);
+        // cells kept free for a shape / a junction created later in the history
+        long lateShapeCell = -1, lateJuncCell = -1;
+        if (ci + 1 < cells.size()) lateShapeCell = (long) ci++;
+        if (ci + 1 < cells.size()) lateJuncCell = (long) ci++;
         // ---- connector generator (also used by the add-connector step)
         std::set<std::pair<long, long>> cpUsed;
         // Two connectors between the same pair of junctions form a cyclic hyperedge, which
@@ -327,24 +365,58 @@ int main(int argc, char **argv) {
             bool retargeted = false;     // at most one re-target per transaction: the library's view of the
                                          // ends is read back only after the transaction (see observe())
             for (int o = 0; o < nops; ++o) {
-                int kind = (int) r.range(0, 23);
+                int kind = (int) r.range(0, 25);
                 std::vector<int> liveShapes;
                 for (auto &s : sc.shapes) if (s.live) liveShapes.push_back(s.id);
-                auto moveInCell = [&](ShapeD &s) {
-                    double w = s.x1 - s.x0, h = s.y1 - s.y0;
-                    double nx0 = s.cx * CELL + MARGIN + q4(r, 0, (long) (CELL - 2 * MARGIN - w) - 1, sc.frac);
-                    double ny0 = s.cy * CELL + MARGIN + q4(r, 0, (long) (CELL - 2 * MARGIN - h) - 1, sc.frac);
-                    double dx = nx0 - s.x0, dy = ny0 - s.y0;
-                    printf("op move %d %s %s\n", s.id, hx(dx).c_str(), hx(dy).c_str()); fflush(stdout);
-                    sc.router->moveShape(s.ref, dx, dy);
-                    s.x0 += dx; s.x1 += dx; s.y0 += dy; s.y1 += dy;
-                };
-                auto moveJunc = [&](JuncD &j) {
-                    double nx = j.cx * CELL + q4(r, 64, 192, sc.frac), ny = j.cy * CELL + q4(r, 64, 192, sc.frac);
-                    printf("op jmove %d %s %s\n", j.id, hx(nx - j.x).c_str(), hx(ny - j.y).c_str()); fflush(stdout);
-                    sc.router->moveJunction(j.ref, nx - j.x, ny - j.y);
-                    j.x = nx; j.y = ny;
-                };
+                if (kind == 24) {
+                    // a new shape with pins, moved / resized in the SAME transaction, and a connector on it
+                    if (lateShapeCell < 0) continue;
+                    ShapeD sd; sd.id = (int) sc.shapes.size(); sd.cx = cells[lateShapeCell].first; sd.cy = cells[lateShapeCell].second; sd.live = true;
+                    lateShapeCell = -1;
+                    sc.rectIn(r, sd.cx, sd.cy, sd.x0, sd.y0, sd.x1, sd.y1);
+                    printf("op addshape %d\nshape %d %s %s %s %s\n", sd.id, sd.id, hx(sd.x0).c_str(), hx(sd.y0).c_str(), hx(sd.x1).c_str(), hx(sd.y1).c_str());
+                    Rectangle rect(Point(sd.x0, sd.y0), Point(sd.x1, sd.y1));
+                    sd.ref = new ShapeRef(sc.router, rect, (unsigned) (10 + sd.id));
+                    sc.shapes.push_back(sd);
+                    size_t firstPin = sc.pins.size();
+                    genPinDescs(sd.id, buffer == 0 && allowOrth && !borderMode);
+                    for (size_t pi = firstPin; pi < sc.pins.size(); ++pi) createPin(sc.pins[pi]);
+                    if (r.coin(3, 4)) { if (r.coin()) moveInCell(sc.shapes[sd.id]); else resizeInCell(sc.shapes[sd.id]); }
+                    ConnD c;
+                    if (sc.pins.size() > firstPin && sc.conns.size() < 11 && genConn(c)) {
+                        const PinD &pp = sc.pins[firstPin + r.range(0, (long) (sc.pins.size() - firstPin) - 1)];
+                        int e = (int) r.range(0, 1);
+                        if (!(c.e[1 - e].kind == 'P' && c.e[1 - e].obj == sd.id)) {
+                            c.e[e].kind = 'P'; c.e[e].obj = sd.id; c.e[e].cls = pp.cls;
+                            if (c.e[1 - e].kind == 'J' && !cpJunctionMode) c.cps.clear();
+                            sc.declConn(c); fflush(stdout); sc.makeConn(c); sc.conns.push_back(c);
+                        }
+                    }
+                    continue;
+                }
+                if (kind == 25) {
+                    // a new junction, moved in the SAME transaction, and a connector on it
+                    if (lateJuncCell < 0) continue;
+                    JuncD jd; jd.id = (int) sc.juncs.size(); jd.cx = cells[lateJuncCell].first; jd.cy = cells[lateJuncCell].second;
+                    lateJuncCell = -1;
+                    jd.x = jd.cx * CELL + q4(r, 64, 192, sc.frac); jd.y = jd.cy * CELL + q4(r, 64, 192, sc.frac);
+                    jd.fixed = r.coin();
+                    printf("op addjunction %d\njunction %d %s %s %d\n", jd.id, jd.id, hx(jd.x).c_str(), hx(jd.y).c_str(), (int) jd.fixed);
+                    jd.ref = new JunctionRef(sc.router, Point(jd.x, jd.y), (unsigned) (100 + jd.id));
+                    if (jd.fixed) jd.ref->setPositionFixed(true);
+                    sc.juncs.push_back(jd);
+                    if (r.coin(3, 4)) moveJunc(sc.juncs[jd.id]);
+                    ConnD c;
+                    if (sc.conns.size() < 11 && genConn(c)) {
+                        int e = (int) r.range(0, 1);
+                        if (c.e[1 - e].kind != 'J') {          // no junction-to-junction connector (hyperedge cycles)
+                            c.e[e].kind = 'J'; c.e[e].obj = jd.id;
+                            if (!cpJunctionMode) c.cps.clear();
+                            sc.declConn(c); fflush(stdout); sc.makeConn(c); sc.conns.push_back(c);
+                        }
+                    }
+                    continue;
+                }
                 if (kind >= 20 && retargeted) continue;
                 if (kind >= 20) {
                     retargeted = true;
@@ -393,10 +465,7 @@ int main(int argc, char **argv) {
                 } else if (kind <= 6 && !liveShapes.empty()) {     // translate a shape inside its cell
                     moveInCell(sc.shapes[r.pick(liveShapes)]);
                 } else if (kind <= 12 && !liveShapes.empty()) {    // resize (new rectangle in the same cell)
-                    ShapeD &s = sc.shapes[r.pick(liveShapes)];
-                    sc.rectIn(r, s.cx, s.cy, s.x0, s.y0, s.x1, s.y1);
-                    printf("op resize %d %s %s %s %s\n", s.id, hx(s.x0).c_str(), hx(s.y0).c_str(), hx(s.x1).c_str(), hx(s.y1).c_str()); fflush(stdout);
-                    sc.router->moveShape(s.ref, Rectangle(Point(s.x0, s.y0), Point(s.x1, s.y1)));
+                    resizeInCell(sc.shapes[r.pick(liveShapes)]);
                 } else if (kind <= 14 && !sc.juncs.empty()) {      // move a junction inside its cell
                     moveJunc(sc.juncs[r.range(0, (long) sc.juncs.size() - 1)]);
                 } else if (kind == 15) {                            // new connector
